@@ -1,7 +1,7 @@
 (* C07/Properties.v — property theorems only.  Model: C07/Model.v (the code after fix commits
    e89b171, 07b228c; with the known finding F-C07a, whose fix 311264d was reverted by 0819a3f). *)
 From Coq Require Import String Lia.
-From RM Require Import C06.Model C06.Proofs C06.Proofs5 C06.Driver C07.Model C07.Proofs C07.Proofs2 C07.Proofs3 C07.Proofs4 C07.Text C07.Proofs5.
+From RM Require Import C06.Model C06.Proofs C06.Proofs5 C06.Driver C07.Model C07.Proofs C07.Proofs2 C07.Proofs3 C07.Proofs4 C07.Text C07.Proofs5 C07.Walker C07.Proofs6 C07.Proofs7.
 From RM Require C09.Grammar.
 From RM Require C08.Model C08.Proofs.
 Open Scope Z_scope.
@@ -213,6 +213,52 @@ Theorem c07_fpo_formulae :
 Proof. exact fpo_formulae. Qed.
 Print Assumptions c07_fpo_formulae.
 
+(* ---- round 4: the grand-callee facts are DERIVED from the call stack (walk_stack + CfiStackWalker::from_ctx_and_args,
+   field expressions regenerated from lib.rs by translate/c07_walker_args.py) ---- *)
+(* "has a grand-callee" means exactly "the frame being unwound is not the context frame", whether or not the frame
+   below it has a known parameter size; the parameter size is that frame's when known, else 0 *)
+Theorem c07_walker_args :
+  forall (below : list sframe) (callee : sframe),
+    walker_has_gc (below ++ [callee]) = spec_has_gc below /\
+    walker_gcps (below ++ [callee]) = spec_gcps below.
+Proof. exact walker_args_spec. Qed.
+Print Assumptions c07_walker_args.
+
+(* hence the FPO leftover-return-address skip can only ever touch the context frame: a frame with ANY frame below it
+   (symbolicated or not — [parameter_size g] is arbitrary) is unwound by the plain documented formula
+   eip = *(esp + frame_size), esp = esp + frame_size + 4, even when that word equals the frame's own eip
+   (direct recursion from one call site) *)
+Theorem c07_fpo_no_skip_above_context :
+  forall regs mem instr below g callee i abp s',
+    walk_win_fpo (mock_ops 4) (frames_env regs mem instr (g :: below) callee) i abp m_init = (s', true) ->
+    exists fs esp eip,
+      win_frame_size i (spec_gcps (g :: below)) = Some fs /\ regs N_esp = Some esp /\
+      mem (esp + fs) = Some eip /\
+      m_regs s' N_eip = SetTo eip /\ m_regs s' N_esp = SetTo (esp + fs + 4).
+Proof. exact fpo_no_skip_above_context. Qed.
+Print Assumptions c07_fpo_no_skip_above_context.
+
+(* A whole walk, unbounded depth (induction on the number of activations): a function unwound by an FPO record that
+   called itself n times from ONE call site (every return-address slot holds the same address rr, which is also each
+   activation's own eip) sits above at least one other frame.  Whatever that function's parameter size — known (Some k)
+   or unknown because the function has no FUNC/PUBLIC record (None) — the first n callers the walk produces are exactly
+   the n generated activations: eip = rr, esp advancing by frame size + 4, ebp passed through; nothing is skipped.
+   The derivation of has_grand_callee / grand_callee_parameter_size is the translated one (Gen/C07WalkerArgs.v). *)
+Theorem c07_fpo_recursion_chain :
+  forall (n : nat) mem in_stack lookup i ps F rr ebp below esp0,
+    let gcps := match ps with Some k => k | None => 0 end in
+    below <> [] -> spec_gcps below = gcps ->
+    win_frame_size i gcps = Some F -> 0 <= F ->
+    lookup rr = Some (i, ps) ->
+    4096 <= rr < 2 ^ 32 -> ebp < 2 ^ 32 -> 0 <= esp0 ->
+    esp0 + Z.of_nat n * (F + 4) < 2 ^ 32 ->
+    (forall k, (k < n)%nat -> in_stack (esp0 + Z.of_nat k * (F + 4)) = true /\
+                              mem (esp0 + Z.of_nat k * (F + 4) + F) = Some rr) ->
+    fpo_walk n mem in_stack lookup below (mkX rr esp0 ebp) =
+      map (fun k => mkX rr (esp0 + Z.of_nat (S k) * (F + 4)) ebp) (seq 0 n).
+Proof. exact fpo_recursion_chain. Qed.
+Print Assumptions c07_fpo_recursion_chain.
+
 (* ---- non-vacuity ---- *)
 Example c07_nonvacuous_doc_example :
   (* the worked example of the module docs: ebp = mem[16], esp = 24, eip = mem[20] *)
@@ -268,3 +314,30 @@ Proof.
   vm_compute. split; [|split; [|exact I]]; [|intros e' []].
   intros e' [H|[]]; subst e'; reflexivity.
 Qed.
+
+Example c07_nonvacuous_recursion_above_unsymbolicated_leaf :
+  (* `recurse` (FPO, 8 bytes of locals) called itself from one call site and then a leaf without FUNC record:
+     its return address slot holds its own eip, the frame below it has parameter_size None — no skip *)
+  let mem := mem_read 4 2147483656 [17;17;17;17; 18;18;18;18; 80;32;0;64; 34;34;0;64; 35;35;35;35; 80;32;0;64] in
+  let E := frames_env (fun n => assoc n [(N_esp, 2147483656); (N_ebp, 7); (N_eip, 1073750096)]) mem 8271
+                      [mkSF None] (mkSF (Some 0)) in
+  e_has_gc E = true /\ e_gcps E = 0 /\ mem (2147483656 + 8) = Some 1073750096 /\
+  match walk_win_fpo (mock_ops 4) E (mkWin 8192 256 0 0 0 0 8 0 (AllocatesBasePointer false)) false m_init with
+  | (s, true) => m_regs s N_eip = SetTo 1073750096 /\ m_regs s N_esp = SetTo 2147483668
+  | _ => False
+  end.
+Proof. vm_compute. repeat split; reflexivity. Qed.
+
+Example c07_nonvacuous_recursion_walk :
+  (* the scenario of the round-4 seeded change, as a whole walk: leaf (no FUNC record) <- recurse x3 <- main.
+     From the context frame the FPO walk yields the three activations and main's frame, then stops (no record). *)
+  let mem := mem_read 4 2147483648
+     [1;1;1;1; 80;32;0;64;   17;17;17;17; 18;18;18;18; 80;32;0;64;   34;34;0;64; 35;35;35;35; 80;32;0;64;
+      51;51;51;51; 52;52;52;52; 0;48;0;64;   0;0;0;0; 0;0;0;0] in
+  let leaf := mkWin 4096 256 0 0 0 0 4 0 (AllocatesBasePointer false) in
+  let recurse := mkWin 8192 256 0 0 0 0 8 0 (AllocatesBasePointer false) in
+  let lookup := fun ip => if (1073745920 <=? ip) && (ip <? 1073746176) then Some (leaf, None)
+                          else if (1073750016 <=? ip) && (ip <? 1073750272) then Some (recurse, Some 0) else None in
+  fpo_walk 10 mem (fun sp => (2147483648 <=? sp) && (sp <? 2147483700)) lookup [] (mkX 1073745936 2147483648 7) =
+    [mkX 1073750096 2147483656 7; mkX 1073750096 2147483668 7; mkX 1073750096 2147483680 7; mkX 1073754112 2147483692 7].
+Proof. vm_compute. reflexivity. Qed.
